@@ -428,3 +428,13 @@ def c25(ctx):
     bad = ctx.validate("Trace_CSR", events, floor=0.9)
     ctx.judge(bad, cases)
     ctx.exhaustive = True
+
+
+@plan("C07")
+def c07(ctx):
+    ctx.rule = ("TLC enumerates every depth-1 recipe over 20 atoms x {add,sub,mul,div,pow (14 exponents),sqrt,"
+                "cbrt,neg} and seeded random subsets of depth-2 and depth-3 recipes; each is built through the "
+                "API and TLC compares the value of the recipe with the value of the returned expression at six "
+                "assignments (positive, negative, perfect-square, fractional, Gaussian) in the exact/modular "
+                "value domain; decisive = some assignment gave a definite comparison")
+    simple(ctx, "MC_C07", "Trace_Val", floor=0.4)
